@@ -75,7 +75,14 @@ def run(ctx: Ctx) -> None:
             ctx.lean_check_olean(MODULES)
     cases = gather_cases(ctx)
     impl_out = []
-    for stream, s, want in cases:
+    import re as _re
+    for idx, (stream, s, want) in enumerate(cases):
+        if want is not None and idx % 3 == 0:
+            # a user mistypes first and corrects then: the same expression with a blank inside its first multi-digit key (malformed) is parsed just before
+            m = _re.search(r"\[\s*(\d)(\d+)", s)
+            if m:
+                P.parse_cond(s[:m.start(1)] + m.group(1) + " " + m.group(2) + s[m.end():])
+                ctx.count("stream", "mistyped-twin-first")
         r = P.parse_cond(s)
         impl_out.append(r)
         ctx.case(s, nontrivial=any(ch in s for ch in "UuOoXx∧∨⊻(") or "][" in s.replace(" ", ""))
@@ -83,8 +90,8 @@ def run(ctx: Ctx) -> None:
         if "err" in r:
             ctx.count("outcome", r["err"])
             if want is not None:
-                ctx.violation(f"well-formed expression rejected with {r['err']}", {"entry": "parse_condition_expression_to_tree", "s": s, "expected_flat": want},
-                              key=f"reject:{s}")
+                ctx.violation(f"well-formed expression rejected with {r['err']}", {"entry": "parse_condition_expression_to_tree", "s": s, "expected_flat": want,
+                              "parser_calls_before (parser, string, by keyword)": P.recent()[:-1]}, key=f"reject:{s}")
             continue
         ctx.count("outcome", "tree")
         if want is not None and r["flat"] != want:
